@@ -2227,6 +2227,137 @@ fn part_c(rep: &mut Report, selftest: bool) -> (u64, u64, u64) {
     (cases.len() as u64, 3 * cases.len() as u64, effects)
 }
 
+/// Part C3 — the router's optional query cache must be invisible: with `init_cache()` a statement
+/// given as text still returns what the engines hold *now*. For every (write w, read q) pair of the
+/// alphabet: cached router runs q, w, q again; the reference is an uncached router that ran w, q.
+/// For every ordered pair of reads (q1, q2): cached router runs q1 then q2 against uncached q2.
+fn part_c3(rep: &mut Report, selftest: bool) -> (u64, u64, u64) {
+    nvc::env::clock_freeze(1_700_000_000);
+    let cases = build_cases();
+    let base_obs = {
+        let r = QueryRouter::new();
+        setup(&r);
+        observe(&r)
+    };
+    let cacheable = |text: &str| np::parse(text).is_ok_and(|st| matches!(st.kind, np::StatementKind::Select(_) | np::StatementKind::Similar(_) | np::StatementKind::Neighbors(_) | np::StatementKind::Path(_)));
+    // reads: up to 4 distinct texts per family (first ones: simplest arguments), that succeed on the base state
+    let mut reads: Vec<String> = vec![];
+    let mut per_fam: BTreeMap<&str, usize> = BTreeMap::new();
+    for c in &cases {
+        if !cacheable(&c.text) || reads.contains(&c.text) {
+            continue;
+        }
+        let n = per_fam.entry(c.family).or_default();
+        if *n >= 4 {
+            continue;
+        }
+        let r = QueryRouter::new();
+        setup(&r);
+        if result_canon(&r.execute_parsed(&c.text)) == "Err" {
+            continue;
+        }
+        *n += 1;
+        reads.push(c.text.clone());
+    }
+    // reads that differ from each other only in the letter case of a string literal / in spacing
+    for q in ["SELECT * FROM t WHERE nm = 'ann'", "SELECT * FROM t WHERE nm = 'ANN'", "SELECT * FROM t WHERE nm = 'Ann'", "SELECT  *  FROM t WHERE nm = 'ann'", "SELECT * FROM t WHERE nm = ' ann'"] {
+        reads.push(q.to_string());
+    }
+    // writes: up to 3 distinct texts per family that change the observable state
+    let mut writes: Vec<String> = vec![];
+    let mut per_fam: BTreeMap<&str, usize> = BTreeMap::new();
+    for c in &cases {
+        if cacheable(&c.text) || writes.contains(&c.text) {
+            continue;
+        }
+        let n = per_fam.entry(c.family).or_default();
+        if *n >= 3 {
+            continue;
+        }
+        let r = QueryRouter::new();
+        setup(&r);
+        let _ = r.execute_parsed(&c.text);
+        if observe(&r) == base_obs {
+            continue;
+        }
+        *n += 1;
+        writes.push(c.text.clone());
+    }
+    let cached = || {
+        let mut r = QueryRouter::new();
+        r.init_cache();
+        setup(&r);
+        r
+    };
+    let plain = || {
+        let r = QueryRouter::new();
+        setup(&r);
+        r
+    };
+    // (kind, first statement, read, cached result, reference)
+    let mut jobs: Vec<(bool, String, String)> = vec![];
+    for w in &writes {
+        for q in &reads {
+            jobs.push((true, w.clone(), q.clone()));
+        }
+    }
+    for q1 in &reads {
+        for q2 in &reads {
+            if q1 != q2 {
+                jobs.push((false, q1.clone(), q2.clone()));
+            }
+        }
+    }
+    let outs: Vec<(String, String)> = jobs
+        .par_iter()
+        .map(|(is_write, first, q)| {
+            let c = cached();
+            if *is_write {
+                let _ = c.execute_parsed(q);
+            }
+            let _ = c.execute_parsed(first);
+            let got = result_canon(&c.execute_parsed(q));
+            let p = plain();
+            if *is_write {
+                let _ = p.execute_parsed(first);
+            }
+            let mut want = result_canon(&p.execute_parsed(q));
+            if selftest && *is_write && first.starts_with("INSERT") {
+                want.push_str("+selftest");
+            }
+            (got, want)
+        })
+        .collect();
+    nvc::env::clock_unfreeze();
+    let kind_of = |text: &str| -> String { np::parse(text).map(|st| format!("{:?}", st.kind).split(['(', ' ', '{']).next().unwrap_or("?").to_string()).unwrap_or_else(|_| "unparsed".into()) };
+    let (mut stale, mut changed) = (0u64, 0u64);
+    let mut by_sig: BTreeMap<String, u64> = BTreeMap::new();
+    for ((is_write, first, q), (got, want)) in jobs.iter().zip(&outs) {
+        if *is_write {
+            let before = {
+                // did the write change this read's answer at all? (non-vacuity count)
+                want != &result_canon(&plain().execute_parsed(q))
+            };
+            changed += u64::from(before);
+        }
+        if got != want {
+            stale += 1;
+            let sig = if *is_write { format!("c15:query-cache:stale-after:{}:{}", kind_of(first), kind_of(q)) } else { "c15:query-cache:answers-a-different-statement".to_string() };
+            let n = by_sig.entry(sig.clone()).or_default();
+            *n += 1;
+            if *n <= 3 {
+                let msg = if *is_write { format!("router with init_cache(): {q:?}, then {first:?}, then {q:?} again -> {got}; without a cache the same statements give {want}") } else { format!("router with init_cache(): {first:?} then {q:?} -> {got}; without a cache {q:?} gives {want}") };
+                rep.violation(sig, msg, json!({"part": "C3", "with_write": is_write, "first": first, "read": q, "cached_result": got, "uncached_result": want}));
+            }
+        }
+    }
+    rep.part("C3_query_cache_invisible", json!({"reads": reads.len(), "writes": writes.len(), "write_read_pairs": writes.len() * reads.len(), "read_read_pairs": reads.len() * (reads.len() - 1), "pairs_where_the_write_changes_the_read": changed, "pairs_differing_from_uncached_router": stale, "by_signature": by_sig}));
+    if changed < 20 {
+        rep.machinery("vacuous part C3: too few writes that change a cached read");
+    }
+    (jobs.len() as u64, 2 * jobs.len() as u64, changed)
+}
+
 
 /// `--replay <file>`: re-run exactly the recorded case
 fn replay_main(rep: &mut Report, path: &str) {
@@ -2253,6 +2384,26 @@ fn replay_main(rep: &mut Report, path: &str) {
                 OneResult::Completed { ref line, .. } if !line.contains("\"findings\":0") => rep.violation(sig, format!("finding reproduced: {line}"), r.clone()),
                 OneResult::Completed { .. } => {}
                 other => rep.violation(sig, format!("reproduced: {other:?}"), r.clone()),
+            }
+        }
+        "C3" => {
+            let (first, q, is_write) = (r["first"].as_str().unwrap_or(""), r["read"].as_str().unwrap_or(""), r["with_write"].as_bool().unwrap_or(true));
+            nvc::env::clock_freeze(1_700_000_000);
+            let mut c = QueryRouter::new();
+            c.init_cache();
+            setup(&c);
+            let p = QueryRouter::new();
+            setup(&p);
+            if is_write {
+                let _ = c.execute_parsed(q);
+                let _ = p.execute_parsed(first);
+            }
+            let _ = c.execute_parsed(first);
+            let (got, want) = (result_canon(&c.execute_parsed(q)), result_canon(&p.execute_parsed(q)));
+            nvc::env::clock_unfreeze();
+            eprintln!("replay C3: cached router -> {got}; uncached -> {want}");
+            if got != want {
+                rep.violation(sig, format!("reproduced: with the query cache {q:?} after {first:?} -> {got}, without -> {want}"), r.clone());
             }
         }
         _ => {
@@ -2307,6 +2458,7 @@ fn main() {
     rep.rule("A: every expression tree with <=N operator nodes over 20 binary + 4 prefix + 8 postfix operator spellings (leaves numbered, three literal kinds), and every left/right comb of depth <=8 over every ordered operator pair; each printed with minimal parentheses per the documented table and fully parenthesised, parsed by both expression parsers, AST compared with the tree; non-trivial = minimal printing needs parentheses");
     rep.rule("B: every valid UTF-8 byte string <=L under 12 lexical contexts; every token sequence <=K over the full alphabet; every sequence of fixed length over a 48-token reduced alphabet; u^n for every token, token pair and hand-listed recursive production; each through tokenize/parse/parse_all/parse_expr twice on a fixed 8 MiB stack");
     rep.rule("C: statement templates x argument grids: execute_parsed(text) on one engine set vs the direct engine call on a twin; result and post-state compared");
+    rep.rule("C3: the same with the router's query cache enabled (init_cache): every (state-changing statement w, cacheable statement q) pair over <=3 writes and <=4 reads per statement family: q, w, q on a cached router vs w, q on an uncached one; every ordered pair of reads (incl. texts differing only in the case or spacing of a string literal): q1, q2 cached vs q2 uncached");
     rep.assume("the documented precedence table is the one in neumann_parser/src/expr.rs:7-18 and docs/book/src/architecture/neumann-parser.md:358 (all binary operators left-associative, unary above binary, postfix above unary)");
     rep.assume("a position is 'inside the input' iff start <= end <= input length (end-of-input errors point at len)");
     rep.assume("stack exhaustion is judged on a thread with an 8 MiB stack (the largest default in use: main thread); 2 MiB (Rust/tokio thread default) thresholds are reported for information");
@@ -2328,6 +2480,10 @@ fn main() {
         states += cases;
         evals += execs;
         nontrivial += effects;
+        let (pairs, execs, changed) = part_c3(&mut rep, selftest);
+        states += pairs;
+        evals += execs;
+        nontrivial += changed;
     }
     rep.add("states", states);
     rep.add("transitions", evals);
